@@ -25,11 +25,13 @@ void leakCheckEvery(long n) {
 // ---------------------------------------------------------------- output
 namespace {
 FILE* g_out = nullptr;
-std::mutex g_outMtx;
+std::mutex& g_outMtx = *new std::mutex;
 std::atomic<long> g_violations{0};
 std::atomic<long> g_curCase{-1};
-std::string g_curKey; // written at caseBegin (main thread), read by others only via emit paths
-std::mutex g_keyMtx;
+// Heap-allocated and never destroyed: the detached watchdog thread may still read them while main's
+// static destructors run at exit.
+std::string& g_curKey = *new std::string; // written at caseBegin (main thread), read via curKeyCopy()
+std::mutex& g_keyMtx = *new std::mutex;
 std::atomic<uint64_t> g_stamp{1};
 std::atomic<uint64_t> g_progress{0};
 double g_caseStart = 0;
@@ -461,8 +463,8 @@ namespace vrt {
 namespace {
 std::atomic<int> w_armed{0}; // flat seconds, 0 = disarmed
 std::atomic<bool> w_idleFlatIsHang{false};
-std::function<std::string()> w_dumper;
-std::mutex w_dumperMtx;
+std::function<std::string()>& w_dumper = *new std::function<std::string()>;
+std::mutex& w_dumperMtx = *new std::mutex;
 std::atomic<bool> w_started{false};
 
 double cpuSeconds() {
